@@ -317,8 +317,8 @@ def function(ip: Interp, fn: PyConst, args, kwargs, n):
         d, f = args
         if z3.is_expr(d) and z3.is_array(d):
             ksort = d.sort().domain()  # a set (Array K Bool): the quantifier ranges over the key sort
-        elif S.is_val(d):
-            ksort = z3.StringSort()  # a dict value
+        elif S.is_val(d) or ip.dictview(d) is not None and not isinstance(d, PRec):
+            ksort = z3.StringSort()  # a dict value / a string-keyed dict record
         else:
             ks = d.f['okeys'] if isinstance(d, PRec) and 'okeys' in d.f else (d.f['dkeys'] if 'dkeys' in d.f else d.f['mkeys'])
             ksort = ks.sort().basis() if S.is_seq(ks) else ks.sort().domain()
@@ -327,6 +327,10 @@ def function(ip: Interp, fn: PyConst, args, kwargs, n):
         body = ip.truth(body, n)
         body = body if z3.is_expr(body) else z3.BoolVal(body)
         return z3.ForAll([k], body) if name == 'forall_keys' else z3.Exists([k], body)
+    if name == 'strval':
+        # specification only: the text of a value that is a string (the cast python does implicitly when a str is expected)
+        (x,) = args
+        return ip.as_str(x, n)
     if name == 'dataclasses_is_dataclass':
         (x,) = args
         return isinstance(x, PRec) and bool(ip.w.registry.classes.get(x.cls, {}).get('attrview'))
